@@ -169,8 +169,8 @@ FLEET['G6'] = dict(
         # long names sharing a 15-character prefix: terms are told apart by their full names
         ('item', T('custom', '', 'custom_lexeme_t_item', typed=True)),
         ('sep', T('custom', '', 'custom_lexeme_t_separator', typed=True)),
-        ('open', T('custom', '', 'custom_lexeme_t_open', typed=True)),
-        ('close', T('custom', '', 'custom_lexeme_t_close', typed=True)),
+        ('open', T('custom', '', 'custom_lexeme_t_bracket_of_kindo', typed=True)),      # exactly 32 characters, and ...
+        ('close', T('custom', '', 'custom_lexeme_t_bracket_of_kindc', typed=True)),     # ... differing from its sibling in the LAST one only
         ('end', T('custom', '', 'custom_lexeme_t_end', typed=True)),
     ],
     nterms=['list', 'elem'],
@@ -634,6 +634,54 @@ FLEET['G23'] = dict(
     values=['node'],
 )
 
+# the dangling else resolved by TERM precedence ("else" above "then"), binary operators by precedence/associativity,
+# in a grammar whose rules are written statement-first although nterms(...) lists expr first: whatever is looked up per
+# rule while conflicts are resolved must use the rule's own number, not its position after sorting. A conflict resolved
+# the wrong way REJECTS valid sentences here (if a then if b then s else s else s)
+FLEET['G24'] = dict(
+    terms=[
+        ('kif', T('string', 'if')),
+        ('kthen', T('string', 'then', prec=1)),
+        ('kelse', T('string', 'else', prec=2)),
+        ('kprint', T('string', 'print')),
+        ('plus', T('char', '+', prec=3, assoc='ltor')),
+        ('mul', T('char', '*', prec=4, assoc='ltor')),
+        ('num', T('regex', '[0-9]+', 'number', typed=True)),
+    ],
+    nterms=['expr', 'stmt'],
+    root='stmt',
+    rules=[
+        ('stmt', ['kif', 'expr', 'kthen', 'stmt'], 'plain'),
+        ('stmt', ['kif', 'expr', 'kthen', 'stmt', 'kelse', 'stmt'], 'ctx'),
+        ('stmt', ['kprint', 'expr'], 'plain'),
+        ('expr', ['expr', 'plus', 'expr'], 'plain'),
+        ('expr', ['expr', 'mul', 'expr'], 'plain'),
+        ('expr', ['num'], 'plain'),
+    ],
+    values=['node', 'mnode'],
+)
+
+# {n} repetition in regex terms that are NOT the first entry of terms(...), on a group and after a prefix: the copies
+# of the repeated sub-automaton start at a state other than 0
+FLEET['G25'] = dict(
+    terms=[
+        ('comma', T('char', ',')),
+        ('word', T('regex', '(abc){2}', 'word', typed=True)),
+        ('hex', T('regex', '0x[0-9a-f]{2}', 'hex', typed=True)),
+        ('tri', T('regex', 'z{3}', 'tri')),
+    ],
+    nterms=['list', 'item'],
+    root='list',
+    rules=[
+        ('item', ['word'], 'plain'),
+        ('list', ['item'], 'plain'),
+        ('item', ['hex'], 'ctx'),
+        ('list', ['list', 'comma', 'item'], 'plain'),
+        ('item', ['tri'], 'plain'),
+    ],
+    values=['node'],
+)
+
 # standalone regex matchers (regex::expr<P>)
 REGEXES = {
     'R1': 'ab*c',
@@ -642,4 +690,5 @@ REGEXES = {
     'R4': 'x{3}y?',
     'R5': '[^a-c]+z',
     'R6': '(ab|cd)+e?',
+    'R7': 'x(abc){2}',
 }
